@@ -523,3 +523,208 @@ def gen_model_history(rng, npieces=5):
         spec.append("\n".join(ssrc))
     lines.append("end")
     return "\n".join(lines), steel, spec, nevals
+
+
+# ------------------------------------------------------------------------------------------------------
+# Directed patterns for the finding classes
+
+def gen_k02a_pattern(rng):
+    """A history that is certainly inside the class of K02a: a chain / a recursion defined in one unit, the
+    innermost procedure assigned by a later unit.  Returns dict like gen_history."""
+    k = rng.choice(["chain", "rec", "alias"])
+    a, b, c = rng.randint(1, 9), rng.randint(10, 19), rng.randint(20, 90)
+    if k == "chain":
+        p0 = "(define (h0 x) (+ x %d))\n(define (g0 x) (+ %d (h0 x)))\n(define (f0 x) (* 2 (g0 x)))" % (a, b)
+        p1 = "(set! h0 (lambda (x) (- x %d)))\n0" % c
+        p2 = "(list (f0 1) (g0 1) (h0 1))"
+        s0 = "(define (h0_1 x) (+ x %d))\n(define (g0_1 x) (+ %d (h0_1 x)))\n(define (f0_1 x) (* 2 (g0_1 x)))" % (a, b)
+        s1 = "(set! h0_1 (lambda (x) (- x %d)))\n0" % c
+        s2 = "(list (f0_1 1) (g0_1 1) (h0_1 1))"
+    elif k == "rec":
+        p0 = "(define (r0 n acc) (if (<= n 0) acc (r0 (- n 1) (+ acc %d))))\n(define (w0 n) (r0 n 0))" % a
+        p1 = "(set! r0 (lambda (n acc) %d))\n0" % c
+        p2 = "(list (w0 %d) (r0 3 0))" % rng.randint(2, 12)
+        s0 = p0.replace("r0", "r0_1").replace("w0", "w0_1")
+        s1 = p1.replace("r0", "r0_1")
+        s2 = p2.replace("r0", "r0_1").replace("w0", "w0_1")
+    else:
+        p0 = "(define (f0 n) (if (<= n 0) 0 (+ 1 (f0 (- n 1)))))\n(define g0 f0)"
+        p1 = "(set! f0 (lambda (n) %d))\n0" % c
+        p2 = "(list (g0 %d) (f0 2))" % rng.randint(3, 12)
+        s0 = p0.replace("f0", "f0_1").replace("g0", "g0_1")
+        s1 = p1.replace("f0", "f0_1")
+        s2 = p2.replace("f0", "f0_1").replace("g0", "g0_1")
+    return {"pieces": [p0, p1, p2], "spec": [s0, s1, s2], "k02a": [False, True, True], "features": {"k02a-" + k}}
+
+
+def gen_k02b_pattern(rng):
+    """A unit that defines a procedure and calls it with the wrong number of operands (class of K02b)."""
+    n = rng.randint(1, 3)
+    ps = ["a", "b", "c"][:n]
+    k = rng.choice([m for m in range(0, 5) if m != n])
+    body = rng.choice([ps[0], "(+ %s)" % " ".join(ps), "(list %s)" % " ".join(ps)])
+    call = "(p0 %s)" % " ".join(str(rng.randint(0, 9)) for _ in range(k))
+    shape = rng.choice(["top", "fn", "handled"])
+    if shape == "top":
+        src = "(define (p0 %s) %s)\n%s" % (" ".join(ps), body, call)
+    elif shape == "fn":
+        src = "(define (p0 %s) %s)\n(define (w0 x) (list x %s))\n(w0 1)" % (" ".join(ps), body, call)
+    else:
+        src = "(define (p0 %s) %s)\n(define (w0 x) (with-handler (lambda (e) 42) (list x %s)))\n(w0 1)" % (" ".join(ps), body, call)
+    return {"pieces": [src], "spec": [src], "k02a": [False], "features": {"k02b-" + shape}}
+
+
+# ------------------------------------------------------------------------------------------------------
+# Programs over user modules (STEEL_MODULE_INLINE): m1 provides small procedures, m2 requires m1 and provides
+# procedures that call them, the main program requires both.
+
+def _mod_expr(rng, d, vars_, fns):
+    opts = ["lit", "var", "var"]
+    if d > 0:
+        opts += ["arith", "arith", "if"]
+        if fns:
+            opts += ["call", "call"]
+    k = rng.choice(opts)
+    if k == "lit" or (k == "var" and not vars_):
+        return str(rng.choice([0, 1, 2, 3, 5, 7, -1]))
+    if k == "var":
+        return rng.choice(vars_)
+    if k == "arith":
+        return "(%s %s %s)" % (rng.choice(["+", "-", "*"]), _mod_expr(rng, d - 1, vars_, fns), _mod_expr(rng, d - 1, vars_, fns))
+    if k == "if":
+        return "(if (< %s %s) %s %s)" % (_mod_expr(rng, d - 1, vars_, fns), _mod_expr(rng, d - 1, vars_, fns),
+                                         _mod_expr(rng, d - 1, vars_, fns), _mod_expr(rng, d - 1, vars_, fns))
+    f, ar = rng.choice(fns)
+    return "(%s%s)" % (f, "".join(" " + _mod_expr(rng, d - 1, vars_, fns) for _ in range(ar)))
+
+
+def gen_module_program(rng, moddir, stream="main"):
+    """Returns dict(pieces, k02c).  stream 'k02c': the exporting module assigns one of its exports through a
+    provided procedure that the main program calls (class of K02c)."""
+    import hashlib
+    import os
+    os.makedirs(moddir, exist_ok=True)
+    n1 = rng.randint(1, 3)
+    m1_fns = []
+    m1_src = []
+    for i in range(n1):
+        ar = rng.randint(0, 2)
+        ps = ["x", "y"][:ar]
+        m1_src.append("(define (a%d%s) %s)" % (i, "".join(" " + p for p in ps), _mod_expr(rng, 2, ps, list(m1_fns))))
+        m1_fns.append(("a%d" % i, ar))
+    provides1 = [f for f, _ in m1_fns]
+    k02c = stream == "k02c"
+    if k02c:
+        tgt, ar = rng.choice(m1_fns)
+        ps = ["x", "y"][:ar]
+        m1_src.append("(define (bump!) (set! %s (lambda (%s) %d)))" % (tgt, " ".join(ps), rng.randint(100, 200)))
+        provides1.append("bump!")
+    text1 = "(provide %s)\n%s\n" % (" ".join(provides1), "\n".join(m1_src))
+    name1 = "gen-%s.scm" % hashlib.sha1(text1.encode()).hexdigest()[:12]
+    with open(os.path.join(moddir, name1), "w") as f:
+        f.write(text1)
+    m2_fns, m2_src = [], []
+    for i in range(rng.randint(1, 3)):
+        ar = rng.randint(0, 2)
+        ps = ["x", "y"][:ar]
+        m2_src.append("(define (b%d%s) %s)" % (i, "".join(" " + p for p in ps), _mod_expr(rng, 2, ps, m1_fns + m2_fns)))
+        m2_fns.append(("b%d" % i, ar))
+    text2 = "(require \"%s\")\n(provide %s)\n%s\n" % (name1, " ".join(f for f, _ in m2_fns), "\n".join(m2_src))
+    name2 = "gen-%s.scm" % hashlib.sha1(text2.encode()).hexdigest()[:12]
+    with open(os.path.join(moddir, name2), "w") as f:
+        f.write(text2)
+    allf = m1_fns + m2_fns
+    main = ["(require \"%s\")" % os.path.join(moddir, name2), "(require \"%s\")" % os.path.join(moddir, name1)]
+    mine = []
+    for i in range(rng.randint(1, 3)):
+        ar = rng.randint(0, 2)
+        ps = ["x", "y"][:ar]
+        main.append("(define (c%d%s) %s)" % (i, "".join(" " + p for p in ps), _mod_expr(rng, 2, ps, allf + mine)))
+        mine.append(("c%d" % i, ar))
+    obs = lambda: "(list %s)" % " ".join(_mod_expr(rng, 1, [], [fa]) if False else "(%s%s)" % (f, "".join(" %d" % rng.randint(0, 5) for _ in range(ar)))
+                                         for f, ar in allf + mine)
+    # more than 10 top-level expressions: the threshold of the cross-module branch of inline_function_calls
+    for _ in range(rng.randint(4, 9)):
+        main.append(_mod_expr(rng, 2, [], allf + mine))
+    main.append(obs())
+    pieces = ["\n".join(main)]
+    if k02c:
+        if rng.random() < 0.5:
+            pieces[0] += "\n(bump!)\n" + obs()
+        else:
+            pieces.append("(bump!)\n" + obs())
+    else:
+        pieces.append(obs() + "\n" + _mod_expr(rng, 2, [], allf + mine))
+    return {"pieces": pieces, "k02c": k02c}
+
+
+# ------------------------------------------------------------------------------------------------------
+# Operand-type coverage of the native tier: small procedures that apply one primitive to their parameters,
+# called with values of every kind (right and wrong), each call under a handler; loops that cross the fixnum
+# boundary.  No reference semantics for these (bignums, floats, rationals): real vs real only.
+
+JIT_VALUES = [
+    "0", "1", "-1", "2", "7", "-13", "100", "4611686018427387903", "4611686018427387904", "-4611686018427387904",
+    "9223372036854775807", "-9223372036854775808", "9223372036854775808", "100000000000000000000", "-100000000000000000000",
+    "0.5", "-0.0", "0.0", "2.0", "1e308", "-1.5e10", "1/3", "-7/2", "(/ 1.0 0.0)",
+    "#t", "#f", "\"abc\"", "\"\"", "#\\a", "'sym", "'()", "(list 1 2 3)", "(list 1)", "(cons 1 2)", "(vector 1 2 3)", "(vector)",
+    "(void)", "car", "(lambda (x) x)", "(hash 'a 1)", "(box 1)",
+]
+JIT_BINOPS = ["+", "-", "*", "/", "=", "<", ">", "<=", ">=", "quotient", "remainder", "modulo", "min", "max", "cons", "list",
+              "equal?", "eq?", "eqv?", "vector-ref", "list-ref", "append", "string-append"]
+JIT_UNOPS = ["car", "cdr", "null?", "not", "length", "abs", "add1", "sub1", "zero?", "positive?", "negative?", "even?", "odd?",
+             "vector-length", "string-length", "exact->inexact", "number?", "integer?", "list?", "pair?", "first", "rest", "cadr",
+             "unbox", "-", "+", "*", "/", "square", "floor", "round", "exact"]
+JIT_TERNOPS = ["+", "-", "*", "<", "=", "<=", "list", "if", "vector", "max"]
+
+
+def gen_jitops_program(rng):
+    forms = []
+    obs = []
+    nfn = rng.randint(2, 4)
+    for i in range(nfn):
+        kind = rng.choice(["bin", "bin", "bin", "un", "tern", "imm", "loop", "cmpif"])
+        if kind == "bin":
+            op = rng.choice(JIT_BINOPS)
+            forms.append("(define (t%d a b) (with-handler (lambda (e) 'err) (%s a b)))" % (i, op))
+            for _ in range(rng.randint(4, 9)):
+                obs.append("(t%d %s %s)" % (i, rng.choice(JIT_VALUES), rng.choice(JIT_VALUES)))
+        elif kind == "un":
+            op = rng.choice(JIT_UNOPS)
+            forms.append("(define (t%d a) (with-handler (lambda (e) 'err) (%s a)))" % (i, op))
+            for _ in range(rng.randint(4, 9)):
+                obs.append("(t%d %s)" % (i, rng.choice(JIT_VALUES)))
+        elif kind == "tern":
+            op = rng.choice(JIT_TERNOPS)
+            forms.append("(define (t%d a b c) (with-handler (lambda (e) 'err) (%s a b c)))" % (i, op))
+            for _ in range(rng.randint(4, 8)):
+                obs.append("(t%d %s %s %s)" % (i, rng.choice(JIT_VALUES), rng.choice(JIT_VALUES), rng.choice(JIT_VALUES)))
+        elif kind == "imm":
+            # an immediate operand: ADDIMMEDIATE / SUBIMMEDIATE / LTEIMMEDIATE style op codes
+            op = rng.choice(["+", "-", "<=", "<", "=", "*", ">", ">="])
+            k = rng.choice(["1", "2", "0", "10", "-1", "4611686018427387904"])
+            if rng.random() < 0.5:
+                forms.append("(define (t%d a) (with-handler (lambda (e) 'err) (%s a %s)))" % (i, op, k))
+            else:
+                forms.append("(define (t%d a) (with-handler (lambda (e) 'err) (%s %s a)))" % (i, op, k))
+            for _ in range(rng.randint(4, 9)):
+                obs.append("(t%d %s)" % (i, rng.choice(JIT_VALUES)))
+        elif kind == "cmpif":
+            op = rng.choice(["<", "<=", "=", ">", ">=", "null?", "not", "equal?"])
+            if op in ("null?", "not"):
+                forms.append("(define (t%d a b) (with-handler (lambda (e) 'err) (if (%s a) 'yes 'no)))" % (i, op))
+            else:
+                forms.append("(define (t%d a b) (with-handler (lambda (e) 'err) (if (%s a b) 'yes 'no)))" % (i, op))
+            for _ in range(rng.randint(4, 9)):
+                obs.append("(t%d %s %s)" % (i, rng.choice(JIT_VALUES), rng.choice(JIT_VALUES)))
+        else:
+            # a self tail loop whose accumulator leaves the fixnum range (or changes kind)
+            op = rng.choice(["(* acc 2)", "(+ acc acc)", "(* acc acc)", "(+ acc 4611686018427387903)", "(- acc 4611686018427387904)",
+                             "(* acc 1.5)", "(/ acc 3)", "(cons i acc)", "(+ acc 1/3)", "(- acc)"])
+            forms.append("(define (t%d i acc) (if (<= i 0) acc (t%d (- i 1) %s)))" % (i, i, op))
+            for _ in range(rng.randint(2, 4)):
+                obs.append("(with-handler (lambda (e) 'err) (t%d %d %s))" % (i, rng.randint(0, 70) if "acc acc)" not in op or op == "(+ acc acc)" else rng.randint(0, 8),
+                                                                        rng.choice(["1", "3", "-1", "0", "2.0", "1/2", "'()", "7"])))
+    rng.shuffle(obs)
+    k = max(1, len(obs) // 2)
+    return {"pieces": ["\n".join(forms) + "\n(list %s)" % " ".join(obs[:k]), "(list %s)" % " ".join(obs[k:])]}
